@@ -19,7 +19,7 @@ def opSchemaJsonRoundtrip : Handler := fun _ j => do
   let s ← getSchemaC1617 j
   match unmarshalSchema (marshalSchema s) with
   | .ok s' => .ok (if s' = { s with bare := { s.bare with anns := [] } } then "same" else "differs")
-  | .error e => .ok ("error " ++ e)
+  | .error _ => .ok "error"
 
 /-- the text parser: Cedar schema text (hex) -> canonical AST dump, or `err` -/
 def opSchemaParse : Handler := fun _ j => do
